@@ -110,3 +110,43 @@ Example C17_ex_float :
   narrow64 (widen32 1) = 1 /\ f32_is_nan 1 = false /\
   float_read 4 (float_write 4 1065353216 ++ [9]) = Done 1065353216 [9].
 Proof. repeat split; vm_compute; reflexivity. Qed.
+
+(* ---- the two buffers as an application's own codec sees them (Model/Buffers.v) ----
+   WriteBuf is append: without a Reset, Bytes is what the slice held followed by everything
+   appended, in order, every Varint in the specification's form; a Reset forgets all of it. *)
+Require Import Avro.Model.Buffers Avro.Proofs.BuffersP.
+Theorem C17_writebuf_is_append : forall ops buf, forallb (fun op => negb (is_reset op)) ops = true ->
+  wb_run buf ops = buf ++ concat (map wb_bytes ops).
+Proof. exact wb_run_append. Qed.
+Print Assumptions C17_writebuf_is_append.
+
+Theorem C17_writebuf_reset : forall ops1 ops2 buf, wb_run buf (ops1 ++ WbReset :: ops2) = wb_run [] ops2.
+Proof. exact wb_run_reset. Qed.
+Print Assumptions C17_writebuf_reset.
+
+(* ReadBuf is a cursor that only moves forward; Next / NextAsString hand out exactly the bytes
+   they step over and refuse, leaving the cursor where it is, exactly when the length is
+   negative or exceeds what is left; a Varint that succeeds returns the value of the bytes it
+   stepped over *)
+Theorem C17_readbuf_cursor_moves_forward : forall rest op rest' o,
+  (forall d, op <> RbReset d) -> rb_step rest op = (rest', o) -> exists pre, rest = pre ++ rest'.
+Proof. exact rb_step_suffix. Qed.
+Print Assumptions C17_readbuf_cursor_moves_forward.
+
+Theorem C17_readbuf_next : forall rest l,
+  (0 <= l <= len rest -> rb_step rest (RbNext l) = (skipn (Z.to_nat l) rest, OBytes (firstn (Z.to_nat l) rest))) /\
+  (l < 0 \/ len rest < l -> rb_step rest (RbNext l) = (rest, OErr)) /\
+  rb_step rest (RbNextAsString l) = rb_step rest (RbNext l).
+Proof. exact rb_next_spec. Qed.
+Print Assumptions C17_readbuf_next.
+
+Theorem C17_readbuf_varint : forall rest v rest',
+  rb_step rest RbVarint = (rest', OInt v) -> dec_varint rest = VOk (v, rest').
+Proof. exact rb_varint_ok. Qed.
+Print Assumptions C17_readbuf_varint.
+
+Example C17_buffers_ex :
+  wb_run [9] [WbVarint (-1); WbByte 7; WbWrite [1; 2]; WbReset; WbVarint 64] = [128; 1] /\
+  rb_run [2; 255; 128; 128] [RbVarint; RbNext 5; RbNext (-1); RbByte; RbVarint; RbByte]
+    = [(OInt 1, 3); (OErr, 3); (OErr, 3); (OByte 255, 2); (OErr, 0); (OErr, 0)].
+Proof. split; vm_compute; reflexivity. Qed.
